@@ -11,9 +11,10 @@
 //! oracle does not exclude it) slot 1 is not declared and the predecessor's state IS slot 0.
 //!
 //! Profile `timelock`: cap2 (args: Vec<Val> of symbolic length 0..=2, arbitrary Vals), bytes192
-//! (the hashed serialisation is 168 bytes), hw32 (hash-oracle input words), ew32 (event words).
+//! (the hashed serialisation is 168 bytes), hw32 (hash-oracle input words), ew32 (event words),
+//! bytesdirect (direct indexing in Bytes::append: all lengths are concrete here).
 use soroban_sdk::model::{self, world, ArgBuf};
-use soroban_sdk::{Address, Arb, BytesN, Env, Symbol, Val, Vec};
+use soroban_sdk::{Address, Arb, BytesN, Env, Symbol, Val, Vec as SVec};
 use stellar_governance::timelock::{
     cancel_operation, execute_operation, get_min_delay, get_operation_ledger, get_operation_state,
     hash_operation, is_operation_done, is_operation_pending, is_operation_ready, operation_exists,
@@ -32,7 +33,7 @@ pub fn arb_operation() -> Operation {
     Operation {
         target: Address::arb(),
         function: Symbol::arb(),
-        args: <Vec<Val> as Arb>::arb(),
+        args: <SVec<Val> as Arb>::arb(),
         predecessor: <BytesN<32> as Arb>::arb(),
         salt: <BytesN<32> as Arb>::arb(),
     }
@@ -127,7 +128,7 @@ pub fn declare_all() -> Pre {
         s_min: model::slot(S_MIN),
     }
 }
-fn args_buf(args: &Vec<Val>) -> ArgBuf {
+fn args_buf(args: &SVec<Val>) -> ArgBuf {
     let mut a = ArgBuf::new();
     a.push(args);
     a
